@@ -261,4 +261,215 @@ bool c20Underconstrain(GtModel &gt, const std::vector<int> &classes)
     return all;
 }
 
+int c20InjectRateChain(GtModel &gt, unsigned variant)
+{
+    if (gt.voi < 0) {
+        return -1;
+    }
+    const GtInstance voiHome = gt.classes[static_cast<size_t>(gt.voi)].inst[0];
+    const int comp = voiHome.comp;
+    CompSpec &cs = gt.spec.comps[static_cast<size_t>(comp)];
+    const std::string voiName = cs.vars[static_cast<size_t>(voiHome.var)].name;
+    auto fresh = [&](const std::string &stem) {
+        std::string name = stem;
+        for (int k = 1;; ++k) {
+            bool taken = false;
+            for (const auto &v : cs.vars) {
+                taken = taken || v.name == name;
+            }
+            if (!taken) {
+                return name;
+            }
+            name = stem + "_" + std::to_string(k);
+        }
+    };
+    auto addClass = [&](GtRole role, const std::string &stem, const std::string &initial) {
+        VarSpec v;
+        v.name = fresh(stem);
+        v.units = "dimensionless";
+        v.initial = initial;
+        cs.vars.push_back(v);
+        GtClass c;
+        c.role = role;
+        GtInstance in;
+        in.comp = comp;
+        in.var = static_cast<int>(cs.vars.size()) - 1;
+        in.units = "dimensionless";
+        in.log10scale = 0.0;
+        c.inst.push_back(in);
+        gt.classes.push_back(c);
+        return static_cast<int>(gt.classes.size()) - 1;
+    };
+    auto nameOf = [&](int cls) { return cs.vars[static_cast<size_t>(gt.classes[static_cast<size_t>(cls)].inst[0].var)].name; };
+    std::vector<std::pair<Expr, Expr>> eqs;
+    const int e = addClass(GtRole::CONSTANT, "zE", "0.8");
+    gt.classes[static_cast<size_t>(e)].value[0] = gt.classes[static_cast<size_t>(e)].value[1] = 0.8;
+    const int a = addClass(GtRole::COMPUTED_CONSTANT, "zA", "");
+    {
+        GtClass &ac = gt.classes[static_cast<size_t>(a)];
+        ac.rhs = (variant % 2 == 0) ? Expr::make(Op::PLUS, {Expr::ci(nameOf(e)), Expr::cn(1.5, "dimensionless", "1.5")}) : Expr::make(Op::TIMES, {Expr::cn(2, "dimensionless", "2"), Expr::ci(nameOf(e))});
+        ac.deps.push_back(e);
+        ac.value[0] = ac.value[1] = (variant % 2 == 0) ? 0.8 + 1.5 : 2 * 0.8;
+        eqs.emplace_back(Expr::ci(nameOf(a)), ac.rhs);
+    }
+    if ((variant / 2) % 2 == 1) {
+        const int b = addClass(GtRole::COMPUTED_CONSTANT, "zB", "");
+        GtClass &bc = gt.classes[static_cast<size_t>(b)];
+        bc.rhs = Expr::make(Op::PLUS, {Expr::ci(nameOf(a)), Expr::cn(7, "dimensionless", "7")});
+        bc.deps.push_back(a);
+        bc.value[0] = bc.value[1] = gt.classes[static_cast<size_t>(a)].value[0] + 7;
+        eqs.emplace_back(Expr::ci(nameOf(b)), bc.rhs);
+    }
+    const int s = addClass(GtRole::STATE, "zS", "0.25");
+    {
+        GtClass &sc = gt.classes[static_cast<size_t>(s)];
+        sc.varying = true;
+        sc.value[0] = 0.25;
+        sc.value[1] = 1.4;
+        sc.rhs = Expr::ci(nameOf(a));
+        sc.deps.push_back(a);
+        sc.voiLocalInst = 0;
+        sc.rate[0] = sc.rate[1] = gt.classes[static_cast<size_t>(a)].value[0];
+        eqs.emplace_back(Expr::make(Op::DIFF, {Expr::ci(voiName), Expr::ci(nameOf(s))}), sc.rhs);
+    }
+    for (const auto &q : eqs) {
+        cs.equations.push_back(q);
+    }
+    cs.math.push_back(mathBlock(eqs, 0));
+    gt.equationCount += eqs.size();
+    return e;
+}
+
+C20Staleness c20Staleness(const GtModel &gt, const std::vector<bool> &external, const std::map<int, std::vector<int>> &declared)
+{
+    const size_t n = gt.classes.size();
+    auto isExt = [&](size_t c) { return c < external.size() && external[c]; };
+    auto isStateValue = [&](size_t c) { return gt.classes[c].role == GtRole::STATE && !isExt(c); };
+    // what each class reads: the declared dependencies for an external class, else the variables of its equation(s)
+    std::vector<std::vector<size_t>> reads(n);
+    for (size_t c = 0; c < n; ++c) {
+        if (isExt(c)) {
+            auto it = declared.find(static_cast<int>(c));
+            if (it != declared.end()) {
+                for (int d : it->second) {
+                    if (d >= 0 && static_cast<size_t>(d) != c && gt.classes[static_cast<size_t>(d)].role != GtRole::VOI) {
+                        reads[c].push_back(static_cast<size_t>(d));
+                    }
+                }
+            }
+            continue;
+        }
+        const GtClass &cl = gt.classes[c];
+        if (cl.role == GtRole::VOI || cl.role == GtRole::CONSTANT) {
+            continue;
+        }
+        auto add = [&](const GtClass &from) {
+            for (int d : from.deps) {
+                if (static_cast<size_t>(d) != c) {
+                    reads[c].push_back(static_cast<size_t>(d));
+                }
+            }
+        };
+        add(cl);
+        if (cl.role == GtRole::NLA && cl.nlaSystem >= 0) {
+            // every equation of the system mentions the inputs of every unknown
+            for (int u : gt.nla[static_cast<size_t>(cl.nlaSystem)].unknowns) {
+                if (!isExt(static_cast<size_t>(u))) {
+                    add(gt.classes[static_cast<size_t>(u)]);
+                }
+            }
+        }
+    }
+    C20Staleness st;
+    st.stateBased.assign(n, false);
+    for (bool changed = true; changed;) {
+        changed = false;
+        for (size_t c = 0; c < n; ++c) {
+            if (st.stateBased[c]) {
+                continue;
+            }
+            for (size_t d : reads[c]) {
+                if (isStateValue(d) || st.stateBased[d]) {
+                    st.stateBased[c] = true;
+                    changed = true;
+                    break;
+                }
+            }
+        }
+    }
+    // varies at all: reads the VOI, a state or an external class (transitively)
+    std::vector<bool> varies(n, false);
+    for (size_t c = 0; c < n; ++c) {
+        varies[c] = gt.classes[c].role == GtRole::VOI || gt.classes[c].role == GtRole::STATE || isExt(c);
+    }
+    for (bool changed = true; changed;) {
+        changed = false;
+        for (size_t c = 0; c < n; ++c) {
+            if (varies[c] || isExt(c)) {
+                continue;
+            }
+            for (int d : gt.classes[c].deps) {
+                if (varies[static_cast<size_t>(d)]) {
+                    varies[c] = true;
+                    changed = true;
+                    break;
+                }
+            }
+        }
+    }
+    // may legitimately be left at its first-point value: varies, is computed by an equation, and is not state based
+    std::vector<bool> tainted(n, false);
+    for (size_t c = 0; c < n; ++c) {
+        const GtRole r = gt.classes[c].role;
+        tainted[c] = !isExt(c) && (r == GtRole::COMPUTED_CONSTANT || r == GtRole::ALGEBRAIC || r == GtRole::NLA) && varies[c] && !st.stateBased[c];
+    }
+    for (bool changed = true; changed;) {
+        changed = false;
+        for (size_t c = 0; c < n; ++c) {
+            if (tainted[c] || isExt(c) || gt.classes[c].role == GtRole::STATE) {
+                continue;
+            }
+            for (size_t d : reads[c]) {
+                if (tainted[d]) {
+                    tainted[c] = true;
+                    changed = true;
+                    break;
+                }
+            }
+        }
+    }
+    st.strict.assign(n, true);
+    for (size_t c = 0; c < n; ++c) {
+        st.strict[c] = !tainted[c];
+    }
+    return st;
+}
+
+RunResult c20TolerateStale(const GtModel &truth, const GtMapping &map, const RunResult &run, const C20Staleness &st, long *tolerated)
+{
+    RunResult r = run;
+    for (size_t i = 0; i < map.vars.size() && i < r.vars[1].size(); ++i) {
+        const auto &ci = map.vars[i];
+        if (ci.first >= 0 && static_cast<size_t>(ci.first) < st.strict.size() && !st.strict[static_cast<size_t>(ci.first)]) {
+            r.vars[1][i] = truth.instanceValue(ci.first, ci.second, 1);
+            if (tolerated != nullptr) {
+                ++*tolerated;
+            }
+        }
+    }
+    return r;
+}
+
+std::vector<size_t> c20StaleResolve(const GtModel &truth, const GtMapping &map, const C20Staleness &st)
+{
+    std::vector<size_t> r;
+    for (size_t i = 0; i < map.vars.size(); ++i) {
+        const auto &ci = map.vars[i];
+        if (ci.first >= 0 && truth.classes[static_cast<size_t>(ci.first)].role == GtRole::NLA && st.stateBased[static_cast<size_t>(ci.first)]) {
+            r.push_back(i);
+        }
+    }
+    return r;
+}
+
 } // namespace vp
